@@ -23,6 +23,7 @@ ST = os.path.join(VERIF, "selftest")
 CATALOG = [
     ("rev-1935db3", "revert", "fix_1935db3.diff", [("R-ITERSTATE", "IteratorDictStringHRPDACBlocks/3#scanneable-unset")]),
     ("rev-69c5c2a", "revert", "fix_69c5c2a.diff", [("R-CHUNKINIT", "StringDictionaryHASHHF::extractTable#input-budget-maxlength")]),
+    ("rev-89c3c75", "revert", "fix_89c3c75.diff", [("R-CURSORFILL", "StringDictionaryHASHHF::StringDictionaryHASHHF#bytesStrings-advanced-without-store")]),
     ("rev-7838953", "revert", "fix_7838953.diff", [("R-STALEVAR", "SSA::locate#stale-local")]),
     ("rev-e3ad698", "revert", "fix_e3ad698.diff", [("R-TAGS", "missing:StringDictionaryHASHRPDACBlocks")]),
     ("rev-37096d0", "revert", "fix_37096d0.diff", [("R-EXTENT", "DAC_BVLS::levelsIndex")]),
@@ -118,7 +119,7 @@ CATALOG = [
     ("seed-C14_m6", "seeded", "C14_m6", [("R-QUERYPURE", "write-to-this.last_part")]),
     ("seed-C15_m5", "seeded", "C15_m5", [("R-MIRROR", "StringDictionaryHASHHF::save<->StringDictionaryHASHHF::load")]),
     ("seed-C15_m6", "seeded", "C15_m6", [("R-METADATA", "StringDictionaryPFC::StringDictionaryPFC#maxlength")]),
-    ("seed-C16_m4", "seeded", "C16_m4", [("R-TAGS", "StringDictionaryXBW::load#tagcheck")]),
+    ("seed-C16_m4", "seeded", "C16_m4", [("R-TAGS", "StringDictionaryXBW::load#")]),
     ("seed-C16_m5", "seeded", "C16_m5", [("R-TAGS", "StringDictionaryHASHHF::load#tagcheck")]),
     ("seed-C16_m6", "seeded", "C16_m6", [("R-TAGS", "StringDictionaryFMINDEX::load#tagcheck")]),
     ("seed-C17_m4", "seeded", "C17_m4", [("R-MIRROR", "BitSequenceRG::save<->cds_static::BitSequenceRG::load")]),
